@@ -1064,14 +1064,18 @@ def check_C14(run):
     # honest TCP link
     key = '%032x' % rng.getrandbits(128)
     tl = []
-    for _ in range(20 if not thorough else 200):
+    for _ in range(40 if not thorough else 400):
         nb, nd = rng.randint(0, 30), rng.randint(0, 30)
-        tl.append((nb, nd, f'mitm {key} {nb} {nd} {nb} ' + ' '.join(f'fb{i}' for i in range(nb)) + f' {nd} ' + ' '.join(f'fd{i}' for i in range(nd))))
+        # the network may cut the byte stream anywhere: segment boundaries inside length headers, between header and body, inside bodies
+        cuts = ''
+        if rng.random() < 0.8:
+            cuts = ' cd:' + ','.join(str(rng.randint(1, 900)) for _ in range(rng.randint(1, 8))) + ' cb:' + ','.join(str(rng.randint(1, 900)) for _ in range(rng.randint(1, 8)))
+        tl.append((nb, nd, f'mitm {key} {nb} {nd} {nb} ' + ' '.join(f'fb{i}' for i in range(nb)) + f' {nd} ' + ' '.join(f'fd{i}' for i in range(nd)) + cuts))
     for (nb, nd, l), (ans, _) in zip(tl, C.run_harness([' '.join(x[2].split()) for x in tl])):
         run.case(('tcp', l), nb + nd > 0, sample=None); run.count('tcp-link:honest'); run.cov['traces_validated_against_impl'] += 1
         want = 'toDoer=[%s] toBoss=[%s] reuse=0' % (','.join(map(str, range(nb))), ','.join(map(str, range(nd))))
         if ans != want:
-            run.violation(dict(kind='oracle-failed-on-implementation', oracle='honest TCP link delivers everything exactly once in order', layer='link', request_line=l, impl=ans, want=want))
+            run.violation(dict(kind='oracle-failed-on-implementation', oracle='an honest TCP link delivers everything exactly once in order, wherever the byte stream is segmented', layer='link', request_line=l, impl=ans, want=want))
             break
 
     def on_broken(failed):
@@ -1528,6 +1532,8 @@ def check_C08(run):
                 srcfile = os.path.join(d, 'src', f'f{i}').encode().hex()
                 for ln, more in chunks:
                     cmds.append(['CUF', C.X(f'f{i}'), f'f{srcfile}:{off}:{ln}', '-' if more else str(src_mt), str(more)]); off += ln
+                    if more and i % 2 == 1:
+                        cmds.append(['MK'])     # the boss interleaves progress markers between the parts of a big file
                 lines.append(l3.l3_line(cmds, 30000))
             def limit():
                 signal.signal(signal.SIGXFSZ, signal.SIG_IGN)
